@@ -85,6 +85,16 @@ class _Cursor(object):
             return off
         if k == 'CallExpr' and callee(x) and callee(x)[0] == 'fn' and callee(x)[1].get('name') in self.sizes:
             a = call_args(x)[0]
+            pa = peel(a)
+            at = off
+            if pa is not None and pa.get('kind') == 'BinaryOperator' and pa.get('opcode') == '+' and self.is_cursor(kids(pa)[0]):
+                dp = self.poly(kids(pa)[1])         # a read at a fixed distance ahead of the cursor
+                if dp is None:
+                    self.problems.append((x, 'read at a non-polynomial distance from the cursor'))
+                    return off
+                at = off + dp
+                self.reads.append((x, at, Poly.const(self.sizes[callee(x)[1].get('name')]), self.region[-1]))
+                return off
             self.reads.append((x, off, Poly.const(self.sizes[callee(x)[1].get('name')]), self.region[-1]))
             return self.expr(a, off)
         if k == 'CXXMemberCallExpr' and callee(x) and callee(x)[1] in ('assign', 'append') and len(call_args(x)) == 2 \
@@ -113,9 +123,40 @@ class _Cursor(object):
             off = self.expr(c, off)
         return off
 
+    def _range_count(self, s):
+        """Element count of the container a range-for walks: the argument of the single resize()/assign() of that
+        container in the function (the loop body must not change it)."""
+        rng = [x for x in walk(s) if x.get('kind') == 'VarDecl' and (x.get('name') or '').startswith('__range')]
+        if not rng or not kids(rng[0]):
+            return None
+        ck = self.keys.key(kids(rng[0])[-1])
+        sizes = []
+        for x in walk(self.f):
+            if x.get('kind') == 'CXXMemberCallExpr' and callee(x) and callee(x)[0] == 'method' and callee(x)[2] is not None and \
+                    self.keys.key(callee(x)[2]) == ck:
+                if callee(x)[1] in ('resize', 'assign') and call_args(x):
+                    sizes.append(self.poly(call_args(x)[0]))
+                elif callee(x)[1] in ('push_back', 'emplace_back', 'emplace', 'insert', 'erase', 'clear', 'pop_back', 'reserve', 'shrink_to_fit'):
+                    if callee(x)[1] not in ('reserve', 'shrink_to_fit') and any(a is s for a in ancestors(x)):
+                        return None
+        if len(sizes) != 1 or sizes[0] is None:
+            return None
+        # later growth of the container (sentinels appended after decoding) happens after the loop: the loop sees the
+        # size set by resize() only if no insertion precedes it
+        return sizes[0]
+
     def _width_select(self, x, c, n0, ra, rb, off):
         """size selected by a width variable:  (w == c1) ? read c1 : read c2  with w in {c1, c2}
         (also != and the if/else form): the two reads are one read of w bytes."""
+        pc = peel(c)
+        if pc is not None and pc.get('kind') == 'DeclRefExpr':
+            d_ = self.u.by_id.get((pc.get('referencedDecl') or {}).get('id'))
+            if d_ is not None and d_.get('kind') == 'VarDecl' and kids(d_) and \
+                    (dtype(d_) or '').replace('const ', '').strip() == 'bool' and \
+                    not any(lv is not None and self.keys.key(lv) == self.keys.key(pc) for y in walk(self.f)
+                            if y.get('kind') in ('BinaryOperator', 'CompoundAssignOperator', 'UnaryOperator')
+                            for lv in written_lvalues(y)):
+                c = kids(d_)[-1]            # a named test of the width variable
         ck = self.keys.key(c)
         m = re.match(r'^\((.+) (==|!=) n:(\d+)\)$', ck)
         if m and len(ra) == 1 and len(rb) == 1 and m.group(1) in self.symbols:
@@ -196,7 +237,20 @@ class _Cursor(object):
             if not (oa - ob).is_zero():
                 self.problems.append((s, 'branches of if consume different amounts'))
             return oa
-        if k in ('WhileStmt', 'DoStmt', 'CXXForRangeStmt', 'SwitchStmt'):
+        if k == 'CXXForRangeStmt':
+            N = self._range_count(s)
+            body = kids(s)[-1]
+            if N is None:
+                self.problems.append((s, 'cursor advanced in a range-for whose range is not sized by a header field'))
+                return off
+            self.region.append(('loop', s, N))
+            B = self.stmt(body, Poly())
+            self.region.pop()
+            for i, r in enumerate(self.reads):
+                if r[3][0] == 'loop' and r[3][1] is s and len(r) == 4:
+                    self.reads[i] = r + (B,)
+            return off + N * B
+        if k in ('WhileStmt', 'DoStmt', 'SwitchStmt'):
             self.problems.append((s, 'cursor used in an unsupported loop form'))
             return off
         if k == 'DeclStmt':
@@ -339,9 +393,17 @@ def check_cursor(ctx):
                 seen = True
             continue
         total = cur.stmt(s, total)
+    LIMITS = ('unsupported loop form', 'not counted by a header field', 'not sized by a header field', 'loop header', 'non-polynomial')
+    limited = [p for p in cur.problems if any(l in p[1] for l in LIMITS)]
     for (node, why) in cur.problems:
-        ctx.bad('C12-cursor', 'cursor discipline: %s' % why, node, 'the decode cursor is moved in a way the byte accounting '
-                'cannot follow (%s)' % why, construct='cursor:problem:%s' % why)
+        if any(l in why for l in LIMITS):
+            ctx.unknown('C12-cursor', 'cursor discipline: %s' % why, node, 'the byte accounting does not follow this form of the decode '
+                        'loop (%s)' % why, construct='cursor:problem:%s' % why)
+        else:
+            ctx.bad('C12-cursor', 'cursor discipline: %s' % why, node, 'the decode cursor is moved in a way the byte accounting '
+                    'cannot follow (%s)' % why, construct='cursor:problem:%s' % why)
+    if limited:
+        return
     ctx.check((total - P_len).is_zero(), 'C12-cursor', 'bytes consumed by the cursor == DataLength (%s)' % total, bp,
               'the decoder consumes %s bytes but the buffer holds DataLength = %s: decoding runs past the end of the '
               'buffer (or ignores part of it) for some header' % (total, P_len), construct='cursor:total', detail=str(total))
